@@ -11,10 +11,13 @@ import (
 	"math/rand"
 	"os"
 	"path/filepath"
+	"runtime"
 	"runtime/debug"
 	"sort"
+	"strings"
 	"sync"
 	"syscall"
+	"time"
 )
 
 // Violation is one refuting observation.
@@ -69,7 +72,10 @@ type W struct {
 	maxSamp  int
 	caseNo   int
 	seq      uint32 // journal entry number (0 = idle)
-	cpuBegin int64  // process CPU time (ns) when the entry in flight began
+	seq2     uint32 // number of entries ended
+	curCase  string // case id of the entry in flight
+	curInput string
+	cpuBegin int64 // process CPU time (ns) when the entry in flight began
 }
 
 const maxRecordedViolations = 40
@@ -146,6 +152,7 @@ func (w *W) Begin(caseID, input string) {
 		w.seq = 1
 	}
 	w.cpuBegin = processCPU()
+	w.curCase, w.curInput = caseID, input
 	buf := make([]byte, 0, 16+len(caseID)+len(input))
 	buf = binary.LittleEndian.AppendUint32(buf, w.seq) // in flight: the entry's number
 	buf = binary.LittleEndian.AppendUint32(buf, uint32(len(caseID)))
@@ -161,12 +168,93 @@ func (w *W) End() {
 	defer w.mu.Unlock()
 	var b [4]byte
 	w.journal.WriteAt(b[:], 0)
+	w.seq2++
 	if w.cpuBegin > 0 {
 		if ms := (processCPU() - w.cpuBegin) / 1e6; ms > w.sum.Maxes["max_cpu_milliseconds_of_one_journalled_entry"] {
 			w.sum.Maxes["max_cpu_milliseconds_of_one_journalled_entry"] = ms
 		}
 		w.cpuBegin = 0
 	}
+}
+
+var parkedStates = []string{"[chan send", "[chan receive", "[semacquire", "[select", "[sync.Mutex.Lock", "[sync.RWMutex", "[sync.WaitGroup.Wait", "[sync.Cond.Wait"}
+
+// polyGoroutinesParked reports whether every goroutine that runs (or was created by) code of the poly module is
+// parked on a channel, lock or wait group, and how many there are.
+func polyGoroutinesParked(dump string) (all bool, n int, states string) {
+	var st []string
+	for _, g := range strings.Split(dump, "\n\n") {
+		if !strings.Contains(g, "github.com/TimothyStiles/poly/") {
+			continue
+		}
+		n++
+		head := g
+		if i := strings.IndexByte(g, '\n'); i > 0 {
+			head = g[:i]
+		}
+		blocked := false
+		for _, b := range parkedStates {
+			if strings.Contains(head, b) {
+				blocked = true
+			}
+		}
+		if !blocked {
+			return false, n, ""
+		}
+		if len(st) < 6 {
+			st = append(st, head)
+		}
+	}
+	return n > 0, n, strings.Join(st, "; ")
+}
+
+// StartStallDetector watches for a call into poly that is parked for good. It is meant for monitors whose
+// harness never makes poly wait for a harness goroutine (no consumers, no readers that block): there, when the
+// same journal entry is in flight, the process has consumed no CPU for a while, and three goroutine dumps in a
+// row show every goroutine of poly parked on a channel, lock or wait group, nothing in the process can wake
+// them again. (The Go runtime reports this itself - "all goroutines are asleep" - but not under the race
+// detector, and not while any timer is pending.) The verdict rests on goroutine states, not on elapsed time.
+func (w *W) StartStallDetector() {
+	go func() {
+		var lastSeq, lastEnded uint32
+		var lastCPU int64
+		quiet, parked := 0, 0
+		for {
+			time.Sleep(250 * time.Millisecond)
+			w.mu.Lock()
+			seq, ended, id, in := w.seq, w.seq2, w.curCase, w.curInput
+			inFlight := w.cpuBegin > 0
+			w.mu.Unlock()
+			cpu := processCPU()
+			if !inFlight || seq != lastSeq || ended != lastEnded || cpu-lastCPU > 20e6 {
+				lastSeq, lastEnded, lastCPU, quiet, parked = seq, ended, cpu, 0, 0
+				continue
+			}
+			lastCPU = cpu
+			quiet++
+			if quiet < 8 {
+				continue
+			}
+			buf := make([]byte, 1<<20)
+			n := runtime.Stack(buf, true)
+			for n == len(buf) && len(buf) < 1<<27 {
+				buf = make([]byte, 2*len(buf))
+				n = runtime.Stack(buf, true)
+			}
+			if all, k, states := polyGoroutinesParked(string(buf[:n])); all {
+				parked++
+				if parked >= 3 {
+					w.Violation(id, fmt.Sprintf("this call into poly never returns: %d goroutine(s) run poly code and every one of them is parked (%s) in three goroutine dumps in a row, the process consumed no CPU in between, and the harness has nothing running that could wake them", k, states), map[string]any{"journal_input": in})
+					w.mu.Lock()
+					w.cpuBegin = 0
+					w.mu.Unlock()
+					w.FinishAndExit()
+				}
+			} else {
+				parked = 0
+			}
+		}
+	}()
 }
 
 // processCPU is the CPU time (user+system, all threads) this process has consumed, in nanoseconds.
